@@ -113,10 +113,18 @@ ChooseRuntime == /\ phase = "start" /\ "reject" \in Kinds /\ kind' = "runtime" /
 ChooseFunc == /\ phase = "start" /\ "reject" \in Kinds /\ kind' = "function" /\ phase' = "done"
               /\ \E i \in 1 .. Len(FuncCalls), on \in {"", " from ."} : argv' = <<"select " \o FuncCalls[i] \o on>> /\ label' = "call" \o ToString(i)
               /\ expect' = "total" /\ UNCHANGED <<toks, muts>>
+(* whole queries that must end with status 0, 1 or 2: values that are not numbers (NaN, infinity) as sort keys, group keys, filters *)
+Totals == << "select name from . order by sqrt(size - 50)", "select name from . order by 0 * size / 0, name", "select name from . order by ln(0 - size) desc",
+             "select name, size / 0 from . order by size / 0", "select count(*) from . group by sqrt(size - 50)", "select name from . where sqrt(0 - size) > 1",
+             "select max(sqrt(size - 50)), min(ln(0 - size)), avg(size / 0) from .", "select name from . order by size / 0 limit 1",
+             "select name from . order by -{size + 1}", "select -{size + 1}, +{size} from .", "select name from . where size > -{1 - 3}" >>
+ChooseTotal == /\ phase = "start" /\ "reject" \in Kinds /\ kind' = "query" /\ phase' = "done"
+               /\ \E i \in 1 .. Len(Totals) : argv' = <<Totals[i]>> /\ label' = "q" \o ToString(i)
+               /\ expect' = "total" /\ UNCHANGED <<toks, muts>>
 ChooseArgv == /\ phase = "start" /\ "argv" \in Kinds /\ kind' = "argv" /\ phase' = "done"
               /\ \E i \in 1 .. Len(Argvs) : argv' = Argvs[i] /\ label' = (IF Argvs[i][1] = "" THEN "empty-arg" ELSE Argvs[i][1]) \o "/args" \o ToString(Len(Argvs[i]))
               /\ expect' = "total" /\ UNCHANGED <<toks, muts>>
-Next == StartSoup \/ AddTok \/ StartMut \/ Mutate \/ ChooseReject \/ ChooseRuntime \/ ChooseFunc \/ ChooseArgv
+Next == StartSoup \/ AddTok \/ StartMut \/ Mutate \/ ChooseReject \/ ChooseRuntime \/ ChooseFunc \/ ChooseTotal \/ ChooseArgv
 Spec == Init /\ [][Next]_vars
 
 RECURSIVE JoinSp(_)
